@@ -4,6 +4,7 @@
 //   clone-api / clone-parsed : every entity (model, components, units, variables, resets) of every model of a generated family (built through the
 //                API, and the same model after print -> parse) is cloned; oracle before mutation; then EVERY single mutation of
 //                the mutation alphabet on the original, and separately on the clone, must leave the other side unchanged.
+//   clone-parsed-pre : the oracle before mutation only (thorough: under ASan, while clone-parsed runs on the plain build)
 //   foreign-eq : models one of whose variables is equivalent to a variable outside the model (orphan / orphan component /
 //                other model): carve-out of the semantic oracle (what a copy of such a link should be is not stated); judged:
 //                no crash, and the clone's equivalences among its OWN variables are exactly the original's.
@@ -21,7 +22,7 @@ static std::vector<std::vector<int>> DIM_VALUES; // per dimension, the values en
 static void setTier(bool thorough)
 {
     if (thorough) DIM_VALUES = {{0, 1, 2, 3}, {0, 1}, {0, 1, 2, 3}, {0, 1, 2, 3, 4}, {0, 1, 2}, {0, 1, 2, 3}, {0, 1}, {0, 1}};
-    else DIM_VALUES = {{0, 2, 3}, {0, 1}, {1, 2, 3}, {0, 1, 2, 3}, {0, 2}, {0, 2, 3}, {1}, {1}};
+    else DIM_VALUES = {{0, 2, 3}, {0, 1}, {2, 3}, {1, 2, 3}, {0, 2}, {0, 2, 3}, {1}, {1}};
 }
 static uint64_t specCount()
 {
@@ -590,6 +591,7 @@ static std::string printWrapped(const EntityPtr &e, Ctx &c)
 }
 
 // ------------------------------------------------------------------------------------------------ the oracle for one entity
+static bool g_mutate = true; // false: family clone-parsed-pre (oracle before mutation only)
 static void judgeEntity(const Source &src, size_t ei, Ctx &c, const json &where)
 {
     // ---- before any mutation
@@ -650,6 +652,7 @@ static void judgeEntity(const Source &src, size_t ei, Ctx &c, const json &where)
         if (po != pk) c.violation("clone:" + kind + ":printed-forms-differ" + (d.fields.empty() ? "" : ":after-repair-of-reported-fields"), det({{"original", safe(po, 2500)}, {"clone", safe(pk, 2500)}}));
         c.outcome(po.empty() ? "printed:empty" : "printed:compared");
     }
+    if (!g_mutate) return;
     // ---- every single mutation of the original, then of the clone
     size_t nm[2] = {0, 0};
     {
@@ -702,8 +705,9 @@ static Source sourceAt(uint64_t i, bool parsed, Ctx *c)
     }
     return s;
 }
-static void runClone(uint64_t i, bool parsed, Ctx &c)
+static void runClone(uint64_t i, bool parsed, Ctx &c, bool mutate = true)
 {
+    g_mutate = mutate;
     // the printer changes libxml2's process-wide blank handling (C12's finding); print once so that every case starts in the same state
     g_printer->printModel(Model::create("x"));
     Source s = sourceAt(i, parsed, &c);
@@ -778,6 +782,8 @@ int main(int argc, char **argv)
          [](uint64_t i) { Source s = sourceAt(i, false, nullptr); return json{{"dims", dimsJson(dimsAt(i))}, {"origin", "api"}, {"spec", s.spec}}; }},
         {"clone-parsed", specCount, [](uint64_t i, Ctx &c) { runClone(i, true, c); },
          [](uint64_t i) { Source s = sourceAt(i, true, nullptr); return json{{"dims", dimsJson(dimsAt(i))}, {"origin", "printed-then-parsed"}, {"spec", s.spec}, {"document", s.text}}; }},
+        {"clone-parsed-pre", specCount, [](uint64_t i, Ctx &c) { runClone(i, true, c, false); },
+         [](uint64_t i) { Source s = sourceAt(i, true, nullptr); return json{{"dims", dimsJson(dimsAt(i))}, {"origin", "printed-then-parsed"}, {"mutations", false}, {"document", s.text}}; }},
         {"foreign-eq", foreignCount, runForeign, [](uint64_t i) { Radix r(i); int sh = int(r.take(4)), o = int(r.take(3)), in = int(r.take(2)); return json{{"shape", sh}, {"outside", o}, {"internal", in}}; }},
     };
     return harnessMain(argc, argv, fs);
